@@ -213,6 +213,7 @@ def parse(
     else:
         assert options.python_version[0] >= 3
         feature_version = options.python_version[1]
+    ast = None
     try:
         # Disable
         # - deprecation warnings for 'invalid escape sequence' (Python 3.11 and below)
@@ -239,6 +240,9 @@ def parse(
         try:
             # But to prove that is the cause of this particular recursion error,
             # try to walk the tree using builtin visitor
+            if ast is None:
+                # The recursion limit was already hit by the ast module's parser.
+                raise
             ast3.NodeVisitor().visit(ast)
         except RecursionError:
             errors.report(
